@@ -11,7 +11,7 @@ an absent optional value is `-`.
 
     cfgread INI <sec> <key>                                   → readConfig with the standard fuel
     cfgaf ENV ( N | <k> { <path> } ) <imxMode> <acc> <sys> <mem> <cli?>  → ArchitectureFeatures(...)
-    cfgmain <passResolved> <cliDefault?> <imxMode> ENV ARGS   → vela.main up to the ArchitectureFeatures object
+    cfgmain <passResolved> <cliDefault?> <imxMode> <accDefault> ENV ARGS   → vela.main up to the ArchitectureFeatures object
     cfgspecaf ENV ( N | <k> { <path> } ) <acc> <sys> <mem> <cli?> OBS    → documented rules on an observed outcome
     cfgspecmain ENV ARGS OBS
     cfgspecread INI <sec> <key> ( err | ok - | ok <value> )
@@ -179,9 +179,9 @@ def handle : List String → Option String
     some (outcomeStr (archFeatures env files imx acc sys mem cli))
   | "cfgmain" :: rest => do
     let ((v, env, args), _) ← run (do
-      let pr ← nat; let cd ← optInt; let im ← nat
+      let pr ← nat; let cd ← optInt; let im ← nat; let ad ← str
       let e ← pEnv; let a ← pArgs
-      pure (Variant.mk (pr == 1) cd im, e, a)) rest
+      pure (Variant.mk (pr == 1) cd im ad, e, a)) rest
     some (outcomeStr (mainArch v env args))
   | "cfgspecaf" :: rest => do
     let ((env, files, acc, sys, mem, cli), obs) ← run (do
